@@ -80,7 +80,7 @@ func profC04(t *tape.Tape) model.Profile {
 		p.Deviations = [2]int{2, 6}
 		if t.Chance(1, 2) {
 			// un-appliable deviations: their errors arise after the last sweep over the trees
-			p.Invalid = []string{model.InvDevMissing, model.InvDevAddDefault, model.InvDevDelDefault, model.InvDevDelOther, model.InvDevMinNonList, model.InvDevDelMin, model.InvDevBadType, model.InvDevUnknownKind, model.InvDevGone, model.InvDevDoubleNS}
+			p.Invalid = []string{model.InvDevMissing, model.InvDevAddDefault, model.InvDevDelDefault, model.InvDevDelOther, model.InvDevMinNonList, model.InvDevDelMin, model.InvDevBadType, model.InvDevUnknownKind, model.InvDevGone, model.InvDevDoubleNS, model.InvDevBadPrefix}
 			p.InvalidPct = 25
 		}
 	case 4:
